@@ -409,7 +409,7 @@ func (fb *fnBounds) postFacts(in ssa.Instruction) []constraint {
 			// one of a known set of in-module functions: the object invariants hold again for every
 			// object handed to it (they are properties of the type, re-established by every function)
 			if _, ok := bp.dynTargets(t); ok {
-				for _, a := range t.Call.Args {
+				for _, a := range dynArgs(t) {
 					pt, ok := a.Type().Underlying().(*types.Pointer)
 					if !ok {
 						continue
